@@ -6,7 +6,11 @@ _COMMON_NOTE = ("Trusted: CPython's ast parser; documented semantics of NumPy / 
 
 _HYGIENE = (" Package-wide API-misuse rules run under every property, scoped to its anchor files and their call closure: no module-level state (GL1), value "
             "buffers not integer-typed (DT), getter views and getter results never modified in place (VW, AR), gap functions and observers pure (OBS, AL), "
-            "reshape follows nesting order (RS), own-column broadcasts (BC), integer options compared with None (TD).")
+            "reshape follows nesting order (RS), own-column broadcasts (BC), integer options compared with None (TD), single-use iterators consumed once (L1). "
+            "The scope follows what the property quantifies over (every registered generator / gap function / computer). The incomplete-game object is "
+            "checked as substrate under every property (G-sub): the G rules of game.py are evaluated and reported for the methods this property's code can "
+            "reach - column discipline, guarded getters, copy / negation, bulk reset, compute_bounds runs the computer and stores nothing itself, no "
+            "per-object state besides the table; environments report without storing (OBS-E) where an environment is involved.")
 
 _THOROUGH = " Thorough tier additionally re-analyses AST-computed breaking variants (must fire) and benign twins (must stay silent) of the current tree."
 
@@ -139,12 +143,12 @@ TEXTS = {
               "static analysis: truth-table normal form of bitwise expressions, enumeration-shape and predicate-shape rules"),
     "C19": _t("Static path/dataflow rules over every site that writes, loads or rebuilds a saved result: skip-if-present guard dominates all effects, "
               "the serialised object is the loaded mapping plus exactly the new key, writer and reader of Output agree on keys, columns and dataclass fields "
-              "(tolist round trip), the four commands store positions 0/1 of what they computed, written content is installed, saver registry and dispatcher (every saver behind the existing-name test, file names keep the whole run name); the atomic-write rules A1-A5 of C20 (a failed save must not damage stored runs).",
+              "(tolist round trip), the four commands store positions 0/1 of what they computed, written content is installed, saver registry and dispatcher (every saver behind the existing-name test, file names keep the whole run name); the atomic-write rules A1-A7 of C20 (a failed save must not damage stored runs: also a failed READ of the stored results is not `no results yet`, A6, and a decorator on the writing path passes failures on, A7).",
               "DESIGN.md section 4, C19",
               "exact float/NaN round-trip through the json module, metadata stringification.",
               "static analysis: guard dominance, writer/reader key agreement, dependency closure of Output arguments"),
     "C20": _t("File-effect typestate over the call closure of SAVERS['data.json']: the destination is never opened for writing / truncated / copied onto / "
-              "unlinked; new content goes to a sibling temporary derived from the destination; the atomic replace comes after the temporary file is closed, on the normal path only; no other function of the package renames, replaces or removes files (A5). "
+              "unlinked; new content goes to a sibling temporary derived from the destination; the atomic replace comes after the temporary file is closed, on the normal path only; no other function of the package renames, replaces or removes files (A5); a handler around the read of the stored results catches FileNotFoundError only (A6); a decorator around a function of the writing path cannot return normally when the wrapped call failed (A7: handlers re-raise, retry loops re-raise on their last iteration - decided on integer linear forms of the loop bound). "
               "With these every interruption point leaves the old or the complete new file - this is the property itself modulo rename(2).",
               "DESIGN.md section 4, C20",
               "atomicity of os.replace/rename(2) on one file system (trusted); power loss (no fsync required: the property speaks of process death).",
